@@ -16,6 +16,13 @@ import struct, decimal, json
 from lib import gz, gtext, glist, gbool, gopt
 import universe as UV
 
+
+def gz(n):
+    """Z literal; big numbers in hexadecimal (Coq reads a decimal numeral in quadratic time)"""
+    n = int(n)
+    a = hex(-n if n < 0 else n) if not (-(1 << 62) < n < (1 << 62)) else str(-n if n < 0 else n)
+    return '(-%s)' % a if n < 0 else a
+
 KINDS = ('int', 'text', 'bool', 'double', 'decimal', 'bytes')
 PROTOS = ('json', 'yaml', 'msgpack')
 TNS = 'urn:c02'
@@ -47,8 +54,8 @@ def cfg_name(c):
                                           'soft' if c['soft'] else 'none')
 
 
-def g_cfg(c):
-    return '(mkcfg %s %s %s %s %s)' % ({'json': 'PJson', 'yaml': 'PYaml', 'msgpack': 'PMsgpack'}[c['proto']],
+def g_cfg(c, rpc=False):
+    return '(mkcfg %s %s %s %s %s)' % ('PMsgpackRpc' if rpc else {'json': 'PJson', 'yaml': 'PYaml', 'msgpack': 'PMsgpack'}[c['proto']],
                                        gbool(c['iw']), gbool(c['list']), gbool(c['poly']), gbool(c['soft']))
 
 
@@ -200,21 +207,21 @@ def _rand_char(rng):
     return chr(rng.randint(0x1f600, 0x1f64f))      # emoticons (4-byte)
 
 
-def gen_value(rng, desc, ty, depth, poly):
-    """a non-None conformant value of declared type ty"""
+def gen_value(rng, desc, ty, depth, poly, full=False):
+    """a non-None conformant value of declared type ty; full: every member populated (recursively)"""
     if ty[0] == 'prim':
         return gen_leaf(rng, ty[1])
     if ty[0] == 'arr':
         n = 0 if depth <= 0 else rng.randint(0, 3)
-        return ('list', [gen_value(rng, desc, ty[1], depth - 1, poly) for _ in range(n)])
+        return ('list', [gen_value(rng, desc, ty[1], depth - 1, poly, full) for _ in range(n)])
     cid = ty[1]
     if poly and rng.random() < 0.6:
         cid = rng.choice(subclasses(desc, cid))
-    return ('obj', cid, [gen_field_value(rng, desc, f, depth - 1, poly) for f in flat_fields(desc, cid)])
+    return ('obj', cid, [gen_field_value(rng, desc, f, depth - 1, poly, full) for f in flat_fields(desc, cid)])
 
 
 def gen_field_value(rng, desc, f, depth, poly, full=False):
-    """a conformant value of member f (may be None where the declaration allows it)"""
+    """a conformant value of member f (may be None where the declaration allows it, unless full)"""
     if is_multi(f):
         if f['min'] == 0 and not full and rng.random() < 0.25:
             return ('none',)
@@ -222,13 +229,13 @@ def gen_field_value(rng, desc, f, depth, poly, full=False):
         n = rng.randint(f['min'], max(hi, f['min']))
         if depth <= 0 and f['ty'][0] == 'ref':
             n = f['min']
-        return ('list', [gen_value(rng, desc, f['ty'], depth, poly) for _ in range(n)])
+        return ('list', [gen_value(rng, desc, f['ty'], depth, poly, full) for _ in range(n)])
     may_none = f['min'] == 0 or f['nillable']
     if may_none and not full and (rng.random() < 0.25 or (depth <= 0 and f['ty'][0] == 'ref')):
         return ('none',)
-    if may_none and depth < -2 and f['ty'][0] == 'ref':
+    if may_none and not full and depth < -2 and f['ty'][0] == 'ref':
         return ('none',)
-    return gen_value(rng, desc, f['ty'], depth, poly)
+    return gen_value(rng, desc, f['ty'], depth, poly, full)
 
 
 def to_native(desc, classes, v):
@@ -828,7 +835,7 @@ def dumps(c, d):
         return json.dumps(d).encode('utf8')
     if c['proto'] == 'yaml':
         import yaml
-        return yaml.safe_dump(d, allow_unicode=True).encode('utf8')
+        return yaml.safe_dump(d, allow_unicode=True, sort_keys=False).encode('utf8')
     import msgpack
     return msgpack.packb(d, use_bin_type=True)
 
